@@ -13,9 +13,9 @@ def handle : List String → Option String
   | ["herm_ctor", nev, ncv, n] => do
       let nev ← parseInt? nev; let ncv ← parseInt? ncv; let n ← parseInt? n
       pure (showRes (herm_ctor_lvalue nev ncv n))
-  | ["gen_ctor", nev, ncv, n] => do
-      let nev ← parseInt? nev; let ncv ← parseInt? ncv; let n ← parseInt? n
-      pure (showRes (gen_ctor nev ncv n))
+  | ["gen_ctor", nev, ncv, n, cols] => do
+      let nev ← parseInt? nev; let ncv ← parseInt? ncv; let n ← parseInt? n; let cols ← parseInt? cols
+      pure (showRes (gen_ctor nev ncv n cols))
   | ["jd_ctor", nev, n] => do
       let nev ← parseInt? nev; let n ← parseInt? n
       pure (showRes (jd_check_argument nev n))
